@@ -375,3 +375,123 @@ def split_rectangles_phase2_iteration(S):
     q, heap = list(out.value["q"]), [h.rect for h in out.value["heap"]]
     S.ensure("phase2.work_list_is_empty_again_and_count_grows", len(q) == 0 and len(heap) >= 2)
     _pieces_tile(S, "phase2", rho, heap, lim, True)
+
+
+# ---- bounded leg: larger concrete dies (the symbolic runs hold <= 3 regions and ask for <= 4) -----------------------------------------
+
+def _boxes(rs):
+    return [(r.center.x - r.shape.w / 2, r.center.y - r.shape.h / 2, r.center.x + r.shape.w / 2, r.center.y + r.shape.h / 2, r.region) for r in rs]
+
+
+@contract(P, kind="enum", functions=[D + "split_refinable_regions", D + "initial_grid", D + "floorplanning_rectangles", G + "split_rectangles",
+                                     G + "Rectangle.rectangle_grid"],
+          scope="bounded: concrete dies (decimal sizes, up to 4 blockages / specialised regions, fixed modules), limits 1.42 .. 4, counts up to 60, "
+                "grids up to 9 x 9, repeated refinement", params=[dict(chunk=i) for i in range(8)])
+def larger_dies(chunk, replay=None):
+    import os
+    import random
+    from frame.netlist.netlist import Netlist
+    from frame.utils.utils import write_yaml
+    tier = os.environ.get("VERIF_TIER", "quick")
+    rng = random.Random(1100 + chunk + 100 * int(os.environ.get("VERIF_SEED", "0") or 0))
+    n_des = 40 if tier != "thorough" else 600
+    failures, evals, samples, maxn = [], 0, [], 0
+
+    def check(info, before, after, blocks0, fixed0, d, n_min, lim, exact=None):
+        """tiling of what was refinable before, tags, count, aspect ratio, blockages / fixed untouched"""
+        bad = None
+        tol = 1e-9 * max(d.width, d.height)
+        if exact is not None and len(after) != exact:
+            bad = f"{len(after)} regions instead of {exact}"
+        if len(after) < n_min:
+            bad = f"{len(after)} regions, at least {n_min} requested"
+        area = {}
+        for (x0, y0, x1, y1, tag) in after:
+            owners = [i for i, (a0, b0, a1, b1, t) in enumerate(before) if x0 >= a0 - tol and y0 >= b0 - tol and x1 <= a1 + tol and y1 <= b1 + tol]
+            if len(owners) != 1:
+                bad = bad or f"region {(x0, y0, x1, y1)} lies inside {len(owners)} of the former regions"
+                continue
+            if before[owners[0]][4] != tag:
+                bad = bad or f"region {(x0, y0, x1, y1)} carries tag {tag}, cut from a region tagged {before[owners[0]][4]}"
+            area[owners[0]] = area.get(owners[0], 0.0) + (x1 - x0) * (y1 - y0)
+            if lim is not None and max((x1 - x0) / (y1 - y0), (y1 - y0) / (x1 - x0)) > lim * (1 + 1e-9):
+                bad = bad or f"region {(x0, y0, x1, y1)} has aspect ratio above {lim}"
+        for i, (a0, b0, a1, b1, t) in enumerate(before):
+            if abs(area.get(i, 0.0) - (a1 - a0) * (b1 - b0)) > 1e-9 * d.width * d.height:
+                bad = bad or f"former region {i} is covered for {area.get(i, 0.0)} of {(a1 - a0) * (b1 - b0)}"
+        for i in range(len(after)):
+            for j in range(i + 1, len(after)):
+                p, q = after[i], after[j]
+                if min(p[2], q[2]) - max(p[0], q[0]) > tol and min(p[3], q[3]) - max(p[1], q[1]) > tol:
+                    bad = bad or f"regions {p[:4]} and {q[:4]} overlap"
+        if _boxes(d.blockages) != blocks0 or _boxes(d.fixed_regions) != fixed0 or _boxes(d.floorplanning_rectangles()[1]) != fixed0:
+            bad = bad or "blockages or fixed regions changed"
+        if bad:
+            failures.append(dict(clause="big.refinement_keeps_the_tiling_reaches_the_count_and_bounds_the_ratio", observed=bad, **info))
+
+    for it in range(n_des):
+        if replay:
+            spec, net, ops = replay["die"], replay["netlist"], replay["ops"]
+        else:
+            W, H = rng.choice([(10, 8), (12.5, 7.3), (30, 4), (3, 17), (0.9, 0.6), (100, 100)])
+            step = min(W, H) / 10
+            regions, taken = [], []
+            for tag in rng.sample(["#", "DSP", "BRAM", "#", "LUT"], rng.randint(0, 4)):
+                for _ in range(20):
+                    w, h = rng.randint(1, 4) * step, rng.randint(1, 4) * step
+                    x, y = rng.randint(0, int((W - w) / step)) * step, rng.randint(0, int((H - h) / step)) * step
+                    b = (x, y, x + w, y + h)
+                    if all(min(b[2], t[2]) - max(b[0], t[0]) <= 1e-12 or min(b[3], t[3]) - max(b[1], t[1]) <= 1e-12 for t in taken):
+                        taken.append(b)
+                        regions.append([x + w / 2, y + h / 2, w, h, tag])
+                        break
+            net = None
+            if rng.random() < 0.4:
+                for _ in range(20):
+                    w, h = rng.randint(1, 3) * step, rng.randint(1, 3) * step
+                    x, y = rng.randint(0, int((W - w) / step)) * step, rng.randint(0, int((H - h) / step)) * step
+                    b = (x, y, x + w, y + h)
+                    if all(min(b[2], t[2]) - max(b[0], t[0]) <= 1e-12 or min(b[3], t[3]) - max(b[1], t[1]) <= 1e-12 for t in taken):
+                        net = {"Modules": {"F": {"fixed": True, "rectangles": [[x + w / 2, y + h / 2, w, h]]}, "S": {"area": step * step, "center": [W / 2, H / 2]}}, "Nets": [["F", "S"]]}
+                        break
+            spec = {"width": W, "height": H}
+            if regions:
+                spec["regions"] = regions
+            if not regions and net is None and rng.random() < 0.7:
+                ops = [("grid", rng.randint(1, 9), rng.randint(1, 9))] + [("split", rng.choice([1.42, 1.5, 2.0]), rng.randint(1, 60))]
+            else:
+                ops = [("split", rng.choice([1.42, 1.5, 1.9, 2.0, 3.0, 4.0]), rng.choice([1, 1, 2, 5, 17, 40, 60])) for _ in range(rng.randint(1, 3))]
+        Rectangle.undefine_epsilon()
+        try:
+            d = Die(write_yaml(spec), Netlist(write_yaml(net)) if net else None)
+        except AssertionError:
+            continue
+        for op in ops:
+            info = dict(die=spec, netlist=net, ops=ops)
+            before = _boxes(d.floorplanning_rectangles()[0])
+            blocks0, fixed0 = _boxes(d.blockages), _boxes(d.fixed_regions)
+            evals += 1
+            try:
+                if op[0] == "grid":
+                    if op[1] + op[2] < 2:
+                        continue
+                    d.initial_grid(op[1], op[2])
+                    check(info, before, _boxes(d.floorplanning_rectangles()[0]), blocks0, fixed0, d, op[1] * op[2], None, exact=op[1] * op[2])
+                else:
+                    d.split_refinable_regions(op[1], op[2])
+                    after = _boxes(d.floorplanning_rectangles()[0])
+                    maxn = max(maxn, len(after))
+                    check(info, before, after, blocks0, fixed0, d, op[2], op[1])
+            except Exception as e:  # noqa
+                failures.append(dict(clause="big.refinement_succeeds", observed=f"{type(e).__name__}: {e}", **info))
+                break
+        if not samples:
+            samples.append(dict(die=spec, ops=ops))
+        if len(failures) >= 4 or replay:
+            break
+    Rectangle.undefine_epsilon()
+    return dict(evaluations=evals, distinct_nontrivial=evals, exhaustive=False, failures=failures[:4],
+                rule="random dies (6 sizes incl. decimal and elongated ones; up to 4 blockages / specialised regions and optionally a fixed module on a "
+                     "tenth-of-the-die lattice) refined 1-3 times with limits from 1.42 to 4 and counts from 1 to 60, or gridded up to 9 x 9 and then refined; "
+                     "after every operation: every region inside exactly one former region with its tag, former regions exactly covered, no overlap, count, "
+                     f"aspect ratio, blockages and fixed regions unchanged; largest result: {maxn} regions", samples=samples, bound=f"{n_des} dies per chunk")
